@@ -76,15 +76,19 @@ def write_files(pls, codecs):
         pos = w["built"]
         blocks = []
         ok = True
-        for bi in range(len(p.blocks)):
-            start = pos
-            cnt, pos = read_zz(f, pos)
-            size, pos = read_zz(f, pos)
-            blocks.append({"start": start, "count": cnt, "size": size, "data_at": pos, "z": f[pos:pos + size]})
-            pos += size + 16
-            ok = ok and cnt == len(p.blocks[bi]) and f[pos - 16:pos] == cont.SYNC
+        try:
+            for bi in range(len(p.blocks)):
+                start = pos
+                cnt, pos = read_zz(f, pos)
+                size, pos = read_zz(f, pos)
+                blocks.append({"start": start, "count": cnt, "size": size, "data_at": pos, "z": f[pos:pos + size]})
+                pos += size + 16
+                ok = ok and cnt == len(p.blocks[bi]) and f[pos - 16:pos] == cont.SYNC
+        except IndexError:
+            ok = False      # the file ends before the blocks that were pushed and flushed
         if not ok or pos != len(f):
-            bad.append({"impl_case": line[:3000], "what": "unexpected file layout"})
+            bad.append({"impl_case": line[:3000], "what": "unexpected file layout: %d blocks of %r values were pushed and flushed, the file holds %r behind its %d-byte header (%d bytes)" % (
+                len(p.blocks), [len(b) for b in p.blocks], [b["count"] for b in blocks], w["built"], len(f) - w["built"])})
             continue
         files.append({"codec": c, "payload": p, "file": f, "hdr": w["built"], "blocks": blocks, "wline": line})
     return files, bad
